@@ -131,6 +131,10 @@ class VTr:
             x, t = self.expr(e.args[0])
             if t == 's':
                 return f'(sqrt {x})', 's'
+        if f in ('np.copysign', 'truenp.copysign') and len(e.args) == 2:
+            (a, ta), (b, tb) = self.expr(e.args[0]), self.expr(e.args[1])
+            if ta == tb == 's':
+                return f'(csgn {a} {b})', 's'
         if f in ('np.where', 'truenp.where') and len(e.args) == 3:
             c = e.args[0]
             if isinstance(c, ast.Compare) and len(c.ops) == 1 and isinstance(c.ops[0], (ast.Eq, ast.NotEq)):
@@ -239,7 +243,12 @@ def generate(repo):
     def multi_dot():
         fn = get_def(sm, '_multi_dot')
         (ret,) = find_returns(fn)
-        return ast.unparse(ret) == "np.einsum('ij,ij->i', a, b)"
+        txt = _n(ast.unparse(ret))
+        # the docstring announces that the implementation may change: every row-wise dot product spelling is accepted
+        ok = {"np.einsum'ij,ij->i',a,b", "np.einsum'ij,ij->i',b,a", 'np.suma*b,axis=1', 'np.sumb*a,axis=1', 'np.suma*b,axis=-1',
+              'a*b.sumaxis=1', 'a*b.sumaxis=-1', 'inner1da,b', 'np.matmula[:,None,:],b[:,:,None]', 'np.matmula[:,None,:],b[:,:,None][:,0,0]',
+              'np.matmula[:,None,:],b[:,:,None].squeeze'}
+        return True if txt in ok else None
     g.fact('multiDotIsRowwiseDot', 'prysm/x/raytracing/spencer_and_murty.py:_multi_dot', multi_dot)
 
     # ---------------------------------------------------------------- reflect
@@ -260,9 +269,10 @@ def generate(repo):
         lets, ret = run_block(fn.body, tr)
         x, t = tr.expr(ret)
         assert t == 'v'
-        return lean_def('refract', '(sqrt : K → K) (n nprime : K) (S r : V3 K)', 'V3 K', lets, x)
+        return lean_def('refract', '(sqrt : K → K) (csgn : K → K → K) (lt : K → K → Bool) (n nprime : K) (S r : V3 K)', 'V3 K', lets, x)
     g.item('refract', 'prysm/x/raytracing/spencer_and_murty.py:refract', lambda: get_def(sm, 'refract'), refract,
-           f'def refract (sqrt : K → K) (n nprime : K) (S r : V3 K) : V3 K := {M}.refract sqrt n nprime S r')
+           f'def refract (sqrt : K → K) (csgn : K → K → K) (lt : K → K → Bool) (n nprime : K) (S r : V3 K) : V3 K :=\n'
+           f'  {M}.refract sqrt lt n nprime S r')
 
     # ---------------------------------------------------------------- raytrace: what reflect / refract are handed
     def call_sites():
@@ -297,17 +307,29 @@ def generate(repo):
         (cr,) = find_calls(fn, 'refract')
         ok = ast.unparse(cr.args[0]) == 'nj' and ast.unparse(cr.args[1]) == 'nprime'
         src = ast.unparse(fn)
-        return ok and has(src, 'nprime = surf.n(wvl)', 'nj = nprime', 'nj = n_ambient')
+        if not (ok and has(src, 'nprime = surf.n(wvl)', 'nj = n_ambient')):
+            return None
+        # the index after a refracting surface must become the index before the next one
+        return True if has(src, 'nj = nprime') else False
     g.fact('refractIndicesThreaded', 'prysm/x/raytracing/spencer_and_murty.py:raytrace', refract_indices)
 
     def frames_wiring():
         fn = get_def(sm, 'raytrace')
         (cl,) = find_calls(fn, 'transform_to_local_coords')
         (cg,) = find_calls(fn, 'transform_to_global_coords')
-        src = ast.unparse(fn)
-        return (ast.unparse(cl) == 'transform_to_local_coords(Pj, surf.P, Sj, surf.R)'
-                and ast.unparse(cg) == 'transform_to_global_coords(Pj, surf.P, Sjp1, Rt)'
-                and has(src, 'Rt = surf.R.T', 'if surf.R is None:\n        Rt = None\n    else:\n        Rt = surf.R.T'))
+        # local leg: (point, surf.P, direction, surf.R); global leg: (point, surf.P, direction, <name>) with <name> = surf.R.T
+        if not (len(cl.args) == 4 and ast.unparse(cl.args[1]) == 'surf.P' and len(cg.args) == 4 and ast.unparse(cg.args[1]) == 'surf.P'
+                and isinstance(cg.args[3], ast.Name)):
+            return None
+        if ast.unparse(cl.args[3]) != 'surf.R':
+            return False
+        rt = cg.args[3].id
+        vals = [_n(ast.unparse(n.value)) for n in ast.walk(fn) if isinstance(n, ast.Assign) and ast.unparse(n.targets[0]) == rt]
+        if sorted(vals) == ['None', 'surf.R.T'] or vals == ['surf.R.T']:
+            return True
+        if 'surf.R' in vals:
+            return False        # the global leg is handed the matrix itself: not the inverse rotation
+        return None
     g.fact('globalLegUsesTranspose', 'prysm/x/raytracing/spencer_and_murty.py:raytrace', frames_wiring)
 
     # ---------------------------------------------------------------- frames
@@ -422,9 +444,10 @@ def generate(repo):
         fn = get_def(sf, 'Surface.conic')
         ffp = [n for n in fn.body if isinstance(n, ast.FunctionDef) and n.name == 'FFp'][0]
         src = ast.unparse(ffp)
-        return has(src, 'r, t = cart_to_polar(x, y, vec_to_grid=False)', 'rsq = r * r',
-                   "z = conic_sag(params['c'], params['k'], rsq)", "dr = conic_sag_der(params['c'], params['k'], r)",
-                   'dx, dy = surface_normal_from_cylindrical_derivatives(dr, 0, r, t)', 'return z, dx, dy')
+        ok = has(src, 'r, t = cart_to_polar(x, y, vec_to_grid=False)', 'rsq = r * r',
+                 "z = conic_sag(params['c'], params['k'], rsq)", "dr = conic_sag_der(params['c'], params['k'], r)",
+                 'dx, dy = surface_normal_from_cylindrical_derivatives(dr, 0, r, t)', 'return z, dx, dy')
+        return True if ok else None
     g.fact('conicUsesSagDerAndZeroAzimuthal', 'prysm/x/raytracing/surfaces.py:Surface.conic', conic_ffp)
 
     # ---------------------------------------------------------------- conic sag and derivative (phi=None branch)
